@@ -796,6 +796,22 @@ class AxisInterp:
             return itv.el or TOP, itv.ax
         if itv.k == 'iter' and itv.el is not None:
             return itv.el, itv.ax
+        if itv.k == 'matrix' and itv.own is not None and itv.c != 'dense' \
+                and it is not None:
+            # iterating a scipy matrix walks its rows - for the formats that
+            # support it; a table's matrix may be in any format (COO after
+            # an all-zero import is not iterable / subscriptable)
+            if itv.maj in (None, '?'):
+                self.sink('MAJOR', it, 'iterate-raw', 'bad',
+                          'the table\'s matrix is iterated without fixing '
+                          'its format (tocsr/tocsc): a COO matrix - what an '
+                          'all-zero import produces - cannot be iterated '
+                          'row by row')
+            else:
+                self.sink('MAJOR', it, 'iterate-raw', 'ok',
+                          'format fixed before iterating')
+            return V('per', ax=S if not itv.flip else O, own=itv.own), \
+                (O if not itv.flip else S)
         if itv.k == 'per':
             return V('scalar'), itv.ax
         if itv.k == 'pos':
@@ -804,12 +820,14 @@ class AxisInterp:
             els = []
             ax = None
             for e in itv.elts:
-                el, a = self.element_of(e, None, env)
+                el, a = self.element_of(e, it if e.k == 'matrix' else None,
+                                        env)
                 els.append(el)
                 ax = ax or a
             return V('tuple', elts=tuple(els)), ax
         if itv.k == 'enum' and itv.el is not None:
-            el, a = self.element_of(itv.el, None, env)
+            el, a = self.element_of(itv.el, it if itv.el.k == 'matrix'
+                                    else None, env)
             return V('tuple', elts=(V('pos1', ax=a, ref=itv.el.lay),
                                     el)), a
         if itv.k == 'order':
